@@ -12,7 +12,7 @@ from vf.props import c15
 ID = "C16"
 TITLE = "Multiphase storage is a pressure derivative; diffusivity is mobility over it"
 LEVEL = "exploration"
-BUDGET = {"quick": 1600, "thorough": 600000}
+BUDGET = {"quick": 4000, "thorough": 600000}
 SHRINK = {"quick": True, "thorough": True}
 RULE = (
     "Tables, relative-permeability sets, reference densities and porosities as C15 (shipped oil+water table, "
